@@ -12,6 +12,16 @@
                                [go application handlers] [muHandle.Unlock; return]
      application handler       its own thread (goroutine): [enter] its script
 
+   [Par acts] is a burst of overlapping subscribe / unsubscribe calls: k calls
+   released together on k goroutines of their own (callers [par_base], [par_base]+1,
+   ...), none of them a thread of the table.  Each call is one critical section
+   under events.mu, so whatever the real schedule the burst is one of the
+   serialisations of its calls; the model runs them in the order given.  Bursts
+   whose calls commute ([par_ok]) give the same bus under every serialisation
+   (Proofs: [burst_any_interleaving]); the harness overlaps exactly those and
+   executes the others one call after the other.  A burst may come at any moment:
+   no thread of the table holds events.mu between two of its atomic steps.
+
    A handler's behaviour is a script of bus calls ([act]); scripts are installed by
    the [Script] operation (in the harness: scripted handler objects whose bodies
    park on scheduler-controlled channels).  muHandle is not re-entrant: a core
@@ -77,7 +87,8 @@ Inductive op :=
 | Script (l : level) (h : N) (acts : list act)   (* define what handler h does when called at level l *)
 | Call (t : N) (a : act)                         (* caller t starts one API call *)
 | Step (k : N)                                   (* the (k mod n)-th of the n runnable threads takes one atomic step *)
-| Drain (n : N).                                 (* up to n steps, always the first runnable thread *)
+| Drain (n : N)                                  (* up to n steps, always the first runnable thread *)
+| Par (acts : list act).                         (* overlapping subscribe / unsubscribe calls, one goroutine each *)
 
 Inductive obs :=
 | OSub (t : tid) (l : level) (h : N)             (* subscribe returned *)
@@ -112,6 +123,57 @@ Fixpoint script_of (i : item) (sc : list (item * list act)) : list act :=
   match sc with
   | [] => []
   | (j, a) :: r => if item_eqb i j then a else script_of i r
+  end.
+
+(* ---- a burst of overlapping calls ---- *)
+
+(* the burst's goroutines are callers of their own, numbered from here *)
+Definition par_base : N := 1000.
+
+Definition act_bus (a : act) (b : list item) : list item :=
+  match a with
+  | ASub l h => subscribe (l, h) b
+  | AUnsub l h => unsubscribe (l, h) b
+  | APub => b                                     (* not part of a burst: ignored *)
+  end.
+
+(* sequential composition in the order given *)
+Fixpoint par_bus (acts : list act) (b : list item) : list item :=
+  match acts with
+  | [] => b
+  | a :: r => par_bus r (act_bus a b)
+  end.
+
+(* every call returns; reported in the order given (which goroutine finished first is the schedule's business) *)
+Fixpoint par_obs (i : N) (acts : list act) : list obs :=
+  match acts with
+  | [] => []
+  | ASub l h :: r => OSub (Ext i) l h :: par_obs (N.succ i) r
+  | AUnsub l h :: r => OUnsub (Ext i) l h :: par_obs (N.succ i) r
+  | APub :: r => par_obs (N.succ i) r
+  end.
+
+(* the calls of a burst commute: only subscribe / unsubscribe; two calls that name the same
+   (level, handler) pair are of the same kind; all core-level subscriptions name one handler
+   (the order of the core entries is the order in which Publish calls them - the only way in
+   which the order of the list shows) *)
+Definition act_item (a : act) : option item :=
+  match a with ASub l h | AUnsub l h => Some (l, h) | APub => None end.
+
+Definition act_is_sub (a : act) : bool := match a with ASub _ _ => true | _ => false end.
+
+Definition act_compat (a a' : act) : bool :=
+  match act_item a, act_item a' with
+  | Some i, Some j =>
+      (negb (item_eqb i j) || Bool.eqb (act_is_sub a) (act_is_sub a')) &&
+      (negb (act_is_sub a && act_is_sub a' && level_eqb (fst i) Core && level_eqb (fst j) Core) || item_eqb i j)
+  | _, _ => false
+  end.
+
+Fixpoint par_ok (acts : list act) : bool :=
+  match acts with
+  | [] => true
+  | a :: r => match act_item a with Some _ => true | None => false end && forallb (act_compat a) r && par_ok r
   end.
 
 (* ---- the thread table ---- *)
@@ -258,6 +320,9 @@ Definition step (s : st) (o : op) : st * list obs :=
                threads := insert_thread (Ext t, TRun [a]) (threads s); next_e := next_e s |}, [])
   | Step k => sched s k
   | Drain n => drain (N.to_nat n) s
+  | Par acts =>
+      ({| bus := par_bus acts (bus s); scripts := scripts s; locked := locked s;
+          threads := threads s; next_e := next_e s |}, par_obs par_base acts)
   end.
 
 Fixpoint run (s : st) (ops : list op) : st * list (op * list obs) :=
@@ -298,6 +363,7 @@ Definition parse_op (l : list Z) : option op :=
   | [1; t; k; lv; h] => match parse_act k lv h with Some a => Some (Call (Nz t) a) | None => None end
   | [2; k] => Some (Step (Nz k))
   | [3; n] => Some (Drain (Nz n))
+  | 4 :: r => match parse_acts r with Some a => Some (Par a) | None => None end
   | _ => None
   end.
 
